@@ -48,7 +48,7 @@ def visit(st, sid, schema, values, ntrans):
             st.outcome(k)
             continue
         st.add("traces")
-        problems, collision = embed.check(schema, v, res)
+        problems, collision = embed.check(schema, v, res, el)
         if isinstance(v, (list, dict)) and v:
             st.add("nontrivial")
         st.outcome("ACCEPT/" + ("embedded" if not problems else "not-embedded"))
@@ -58,8 +58,38 @@ def visit(st, sid, schema, values, ntrans):
         st.sample({"state": list(sid), "schema": schema})
 
 
+def visit_dsl(st, label, factory, values):
+    from statham.serializers import serialize_json
+
+    tree = factory()
+    st.add("states")
+    st.add("transitions", len(values))
+    try:
+        schema = serialize_json(tree)
+    except Exception:
+        schema = {}
+    for v in values:
+        k, res = impl.do_call(tree, v)
+        st.add("evaluations")
+        if k != impl.ACCEPT:
+            st.outcome(k)
+            continue
+        st.add("traces")
+        problems, collision = embed.check(schema, v, res, tree)
+        if isinstance(v, (list, dict)) and v:
+            st.add("nontrivial")
+        st.outcome("ACCEPT/" + ("embedded" if not problems else "not-embedded"))
+        if problems:
+            st.violation(classify(schema, v, problems, collision) if collision else "not-embedded:dsl", "DSL tree %s value %s: %s" % (label, json.dumps(runner.jsonable(v))[:120], problems[0]), {"tree": label, "value": v, "problems": problems[:5], "result": repr(res)[:300]})
+
+
 def plan(tier, seed):
     items, meta = lattice.plan_items(tier, seed)
+    from mc.gen import elements as E
+
+    ntrees = len(E.all_trees(1 if tier == "quick" else 2))
+    items = [("dsl", lo, min(ntrees, lo + 25), 1 if tier == "quick" else 2) for lo in range(0, ntrees, 25)] + items
+    meta["dsl_trees"] = ntrees
     if tier == "thorough":
         items = [it for it in items if it[0] != "d3" ]  # cross-group depth-3 slice left to C01
     meta["exhaustive"] = True
@@ -68,6 +98,13 @@ def plan(tier, seed):
 
 def work(item):
     st = runner.Stats()
+    if item[0] == "dsl":
+        from mc.gen import elements as E
+        from mc.gen import values as VAL
+
+        for label, factory in E.all_trees(item[3])[item[1]:item[2]]:
+            visit_dsl(st, label, factory, VAL.V + VAL.V_OBJ)
+        return st
     for sid, schema, values, ntrans in lattice.expand(item):
         if schema is not None:
             visit(st, sid, schema, values, ntrans)
@@ -76,13 +113,20 @@ def work(item):
 
 def replay(case):
     st = runner.Stats()
+    if "tree" in case:
+        from mc.gen import elements as E
+
+        fac = dict(E.all_trees(2)).get(case["tree"])
+        if fac:
+            visit_dsl(st, case["tree"], fac, [case["value"]])
+        return [v for lst in st.violations.values() for _, v in lst]
     kind, el = impl.do_parse(case["schema"])
     if kind != impl.ELEMENT:
         return []
     k, res = impl.do_call(el, case["value"])
     if k != impl.ACCEPT:
         return []
-    problems, collision = embed.check(case["schema"], case["value"], res)
+    problems, collision = embed.check(case["schema"], case["value"], res, el)
     if problems:
         return [{"key": classify(case["schema"], case["value"], problems, collision), "what": problems[0], "case": case}]
     return []
